@@ -25,7 +25,7 @@ META = {
             'against the real handler state.',
     'note': 'Trusted: Coq 8.16.1 kernel (vm_compute only for the closed source-configuration checks and examples), no '
             'axioms; tools/s2c/config.py (regex translation of configure.cpp, logger.cpp, prettyformatter.h, '
-            'stderrsink.h, platformstdsink.h, rotatingfilesink.h); extraction (ExtrOcamlBasic only) and '
+            'stderrsink.h, platformstdsink.h, rotatingfilesink.h) and tools/s2c/fluent.py (every fluent method of simplepipeline.cpp as a table: class constructed, arguments handed on); extraction (ExtrOcamlBasic only) and '
             'ocaml/drv_config.ml; harness/h_config.cpp, harness/h_install.cpp and this script (INI writing, capture, '
             'decompression and concatenation of rotated files).  The pattern mini-language (C12), Qt category rules '
             '(C15) and regular expressions are NOT modelled here in general: configurations are restricted to closed '
